@@ -259,7 +259,7 @@ def case_sig(case):
 def cases_for(max_n, budget, isd_iters, seed, max_L, max_L_2d, max_color):
     out = []
     for i, c in enumerate(domain.all_code_cases(
-            max_L, max_L_2d, max_color, max_n=max_n, with_deformations=False)):
+            max_L, max_L_2d, max_color, max_n=max_n, with_deformations=False, thin=True)):
         if c['cls'] == 'Color666ToricCode' and c['size'][0] != c['size'][1]:
             continue
         if case_sig(c).get('slab_hole'):
